@@ -61,8 +61,8 @@ impl vstd::std_specs::convert::FromSpecImpl<char> for DelimTokenType {
     open spec fn from_spec(v: char) -> Self { DelimTokenType::Unknown }
 }
 impl<'b> vstd::std_specs::convert::FromSpecImpl<&'b str> for DelimTokenType {
-    open spec fn obeys_from_spec() -> bool { false }
-    open spec fn from_spec(v: &'b str) -> Self { DelimTokenType::Unknown }
+    open spec fn obeys_from_spec() -> bool { true }
+    open spec fn from_spec(v: &'b str) -> Self { delim_of_chars(v@) }
 }
 impl<'a> Tokenizer<'a> {
     // frame shared by all scanners: same input, same token registers, cursor only moves forward, still inside the token
@@ -94,4 +94,81 @@ pub open spec fn tok_end(t: Token, len: int) -> int {
         Token::Comma(_, Span(_, b)) => b as int, Token::Bool(_, Span(_, b)) => b as int, Token::String(_, Span(_, b)) => b as int,
         Token::Reference(_, Span(_, b)) => b as int, Token::Function(_, Span(_, b)) => b as int, Token::Semicolon(_, Span(_, b)) => b as int,
     }
+}
+
+// ======================= classification of tokens (C10 (v)): which token a position yields, by the documented rules =======================
+pub open spec fn is_sym_b(c: u8) -> bool { c == 43 || c == 45 || c == 42 || c == 47 || c == 94 || c == 37 || c == 38 || c == 33 || c == 61 || c == 63 || c == 58 || c == 62 || c == 60 || c == 124 }   // + - * / ^ % & ! = ? : > < |
+pub open spec fn is_delim_b(c: u8) -> bool { c == 40 || c == 41 || c == 91 || c == 93 || c == 123 || c == 125 }
+pub open spec fn is_digit_b(c: u8) -> bool { 48 <= c <= 57 }
+pub open spec fn is_digitish_b(c: u8) -> bool { is_digit_b(c) || c == 46 || c == 45 || c == 101 || c == 69 || c == 43 }
+pub open spec fn is_param_b(c: u8) -> bool { is_digit_b(c) || (97 <= c <= 122) || (65 <= c <= 90) || c == 46 || c == 95 }
+// a character that starts none of the dedicated token kinds: an identifier, keyword or word operator starts here
+pub open spec fn other_start(c: u8) -> bool { !is_sym_b(c) && !is_delim_b(c) && !is_digit_b(c) && c != 34 && c != 39 && c != 59 && c != 44 && !is_ws_byte(c) }
+pub open spec fn word_stop(bytes: Seq<u8>, i: int) -> bool { i >= bytes.len() || is_ws_byte(bytes[i]) || is_delim_b(bytes[i]) }
+pub open spec fn no_stop_inside(bytes: Seq<u8>, a: int, b: int) -> bool { forall|i: int| a <= i < b ==> !is_ws_byte(#[trigger] bytes[i]) && !is_delim_b(bytes[i]) }
+pub open spec fn all_param(bytes: Seq<u8>, a: int, b: int) -> bool { forall|i: int| a <= i < b ==> is_param_b(#[trigger] bytes[i]) }
+// the byte at i continues a number literal whose previous byte is at i - 1 (a sign only right after an exponent marker)
+pub open spec fn num_continues(bytes: Seq<u8>, i: int) -> bool {
+    0 < i < bytes.len() && is_digitish_b(bytes[i]) && !((bytes[i] == 43 || bytes[i] == 45) && !(bytes[i - 1] == 101 || bytes[i - 1] == 69))
+}
+pub open spec fn num_run(bytes: Seq<u8>, a: int, b: int) -> bool { forall|i: int| a < i < b ==> #[trigger] num_continues(bytes, i) }
+// registry predicate on the bytes of a candidate (keyword::is_op answers by the text, hence by its bytes)
+pub uninterp spec fn reg_opb(s: Seq<u8>) -> bool;
+// greedy symbolic operator: every extension (one character at a time) was a registered operator ...
+pub open spec fn sym_run(bytes: Seq<u8>, a: int, b: int) -> bool decreases b - a {
+    if b <= a + 1 { b == a + 1 } else {
+        exists|p: int| a + 1 <= p < b && b == p + (#[trigger] char_at(bytes, p)).len_utf8() && sym_run(bytes, a, p) && reg_opb(bytes.subrange(a, b))
+    }
+}
+// ... and the next one is not
+pub open spec fn sym_stop(bytes: Seq<u8>, a: int, b: int) -> bool { b >= bytes.len() || !reg_opb(bytes.subrange(a, b + char_at(bytes, b).len_utf8())) }
+// the word starting at a (up to whitespace / delimiter / end) is a registered operator
+pub open spec fn word_is_op(bytes: Seq<u8>, a: int, from: int) -> bool {
+    exists|e: int| from <= e <= bytes.len() && no_stop_inside(bytes, from, e) && word_stop(bytes, e) && #[trigger] reg_opb(bytes.subrange(a, e))
+}
+pub proof fn lemma_word_end_unique(bytes: Seq<u8>, from: int, e1: int, e2: int)
+    requires from <= e1 <= bytes.len(), from <= e2 <= bytes.len(), no_stop_inside(bytes, from, e1), word_stop(bytes, e1), no_stop_inside(bytes, from, e2), word_stop(bytes, e2),
+    ensures e1 == e2,
+{
+    if e1 < e2 { assert(!is_ws_byte(bytes[e1]) && !is_delim_b(bytes[e1])); }
+    if e2 < e1 { assert(!is_ws_byte(bytes[e2]) && !is_delim_b(bytes[e2])); }
+}
+pub open spec fn delim_of_chars(s: Seq<char>) -> DelimTokenType {
+    if s == "("@ { DelimTokenType::OpenParen } else if s == ")"@ { DelimTokenType::CloseParen } else if s == "["@ { DelimTokenType::OpenBracket }
+    else if s == "]"@ { DelimTokenType::CloseBracket } else if s == "{"@ { DelimTokenType::OpenBrace } else if s == "}"@ { DelimTokenType::CloseBrace } else { DelimTokenType::Unknown }
+}
+// A2: Display of a str is its content
+pub broadcast axiom fn axiom_str_to_string(s: &str, r: String) ensures #[trigger] to_string_from_display_ensures(s, r) ==> r@ == s@;
+// A8: a &str is determined by its characters
+pub broadcast axiom fn axiom_str_ext(a: &str, b: &str) ensures #[trigger] a@ == #[trigger] b@ ==> a == b;
+// A2 (UTF-8): a one-byte string below 128 is that ASCII character
+pub broadcast axiom fn axiom_ascii_singleton(s: &str) ensures s.spec_bytes().len() == 1 && s.spec_bytes()[0] < 128 ==> (#[trigger] s@) == seq![s.spec_bytes()[0] as char];
+pub open spec fn is_bool_kw(s: &str) -> bool { s == "True" || s == "true" || s == "False" || s == "false" }
+pub open spec fn tok_class(bytes: Seq<u8>, t: Token) -> bool {
+    match t {
+        Token::EOF => true,
+        Token::Delim(ty, Span(a, b)) => is_delim_b(bytes[a as int]) && ty == delim_of_byte(bytes[a as int]),
+        Token::Comma(_, Span(a, b)) => bytes[a as int] == 44,
+        Token::Semicolon(_, Span(a, b)) => bytes[a as int] == 59,
+        Token::String(_, Span(a, b)) => bytes[a as int] == 34 || bytes[a as int] == 39,
+        // a number: a digit, then the maximal run of digit / dot / exponent characters
+        Token::Number(_, Span(a, b)) => is_digit_b(bytes[a as int]) && num_run(bytes, a as int, b as int) && !num_continues(bytes, b as int),
+        // true / True / false / False as whole identifiers
+        Token::Bool(v, Span(a, b)) => other_start(bytes[a as int]) && !word_is_op(bytes, a as int, a + char_at(bytes, a as int).len_utf8())
+            && all_param(bytes, a + char_at(bytes, a as int).len_utf8(), b as int) && (b >= bytes.len() || !is_param_b(bytes[b as int]))
+            && (if v { bytes.subrange(a as int, b as int) == "True".spec_bytes() || bytes.subrange(a as int, b as int) == "true".spec_bytes() }
+                else { bytes.subrange(a as int, b as int) == "False".spec_bytes() || bytes.subrange(a as int, b as int) == "false".spec_bytes() }),
+        // an operator: greedy symbolic run, or a whole word (up to whitespace / delimiter) that is a registered operator
+        Token::Operator(_, Span(a, b)) => if is_sym_b(bytes[a as int]) { sym_run(bytes, a as int, b as int) && sym_stop(bytes, a as int, b as int) }
+            else { other_start(bytes[a as int]) && reg_opb(bytes.subrange(a as int, b as int))
+                   && no_stop_inside(bytes, a + char_at(bytes, a as int).len_utf8(), b as int) && word_stop(bytes, b as int) },
+        // a name: first character, then the maximal run of [0-9A-Za-z._]; not a word operator, not a boolean keyword; a function name iff the next token is `(`
+        Token::Reference(s, Span(a, b)) => name_class(bytes, s, a as int, b as int) && !tok_is(tk(bytes, b as int), "("@),
+        Token::Function(s, Span(a, b)) => name_class(bytes, s, a as int, b as int) && tok_is(tk(bytes, b as int), "("@),
+    }
+}
+pub open spec fn name_class(bytes: Seq<u8>, s: &str, a: int, b: int) -> bool {
+    &&& other_start(bytes[a]) &&& !word_is_op(bytes, a, a + char_at(bytes, a).len_utf8())
+    &&& all_param(bytes, a + char_at(bytes, a).len_utf8(), b) &&& (b >= bytes.len() || !is_param_b(bytes[b]))
+    &&& !is_bool_kw(s)
 }
